@@ -151,7 +151,7 @@ func TestC30(t *testing.T) {
 			r.Class("file-clause:differs")
 			for _, d := range diffClasses(text, whole, false, false) {
 				fileClasses[d.Class] = true
-				r.Violation("roundtrip.file", d.Class, c.ID, wit(map[string]any{"detail": d.Detail, "first_difference": firstDiffContext(text, whole), "printed": witnessText(whole)}))
+				r.Violation("roundtrip.file."+classCategory(d.Class), d.Class, c.ID, wit(map[string]any{"detail": d.Detail, "first_difference": firstDiffContext(text, whole), "printed": witnessText(whole)}))
 			}
 		} else {
 			r.Class("file-clause:exact")
@@ -181,7 +181,7 @@ func TestC30(t *testing.T) {
 				continue
 			}
 			extra++
-			r.Violation("roundtrip.decls", d.Class, c.ID, wit(map[string]any{"detail": d.Detail, "first_difference": firstDiffContext(text[:view.LastSigEnd], concat), "concat": witnessText(concat)}))
+			r.Violation("roundtrip.decls."+classCategory(d.Class), d.Class, c.ID, wit(map[string]any{"detail": d.Detail, "first_difference": firstDiffContext(text[:view.LastSigEnd], concat), "concat": witnessText(concat)}))
 		}
 		if extra == 0 {
 			r.Class("decl-clause:differs-only-as-the-file-clause-does")
@@ -189,7 +189,7 @@ func TestC30(t *testing.T) {
 				// The file clause is exact, the decl clause is not, and the
 				// token-level comparison found nothing: the difference is in
 				// how much trailing trivia the last Print emitted.
-				r.Violation("roundtrip.decls", "concatenation is not the text minus trailing trivia (unclassified)", c.ID,
+				r.Violation("roundtrip.decls.other", "concatenation is not the text minus trailing trivia (unclassified)", c.ID,
 					wit(map[string]any{"first_difference": firstDiffContext(text, concat), "concat": witnessText(concat), "last_significant_token_end": view.LastSigEnd}))
 			}
 		}
